@@ -1,4 +1,5 @@
 import Ruint.Model.MulKernels
+import Ruint.Model.ShiftKernels
 import Ruint.Gen.WordsKernels
 import Ruint.Lemmas.Basic
 import Ruint.Lemmas.GenCore
@@ -141,5 +142,427 @@ theorem sbb_n_eq (lhs rhs : List ℕ) (c : ℕ) (hl : lhs.length ≤ rhs.length)
   simp only [List.nil_append, List.length_nil] at hloop
   unfold Ruint.Gen.sbb_n
   simp only [hloop, hr]
+
+/-! ### `mul_nx1`, `addmul_nx1`, `submul_nx1` -/
+
+theorem word_mul_bound (x a c l : ℕ) (hx : x < W) (ha : a < W) (hc : c < W) (hl : l < W) :
+    x * a + c + l < W * W := by
+  have h1 : x * a ≤ (W - 1) * (W - 1) := Nat.mul_le_mul (by omega) (by omega)
+  have hW : 2 ≤ W := by unfold W; norm_num
+  have e : W * W = (W - 1) * (W - 1) + (2 * W - 1) := by
+    obtain ⟨k, hk⟩ : ∃ k, W = k + 1 := ⟨W - 1, by omega⟩
+    rw [hk]; simp only [Nat.add_sub_cancel]; ring_nf; omega
+  omega
+
+theorem muladd_split (x a c : ℕ) (hx : x < W) (ha : a < W) (hc : c < W) :
+    Ruint.Gen.dw_split (Ruint.Gen.dw_muladd x a c) = ((x * a + c) % W, (x * a + c) / W) := by
+  have hb := word_mul_bound x a c 0 hx ha hc W_pos
+  unfold Ruint.Gen.dw_split Ruint.Gen.dw_muladd Ruint.Gen.dw_low Ruint.Gen.dw_high
+  rs_norm
+  generalize x * a = p at *
+  unfold W at *
+  refine Prod.ext ?_ ?_ <;> simp only <;> omega
+
+theorem muladd2_split (a b c l : ℕ) (ha : a < W) (hb : b < W) (hc : c < W) (hl : l < W) :
+    Ruint.Gen.dw_split (Ruint.Gen.dw_muladd2 a b c l) = ((a * b + c + l) % W, (a * b + c + l) / W) := by
+  have hbd := word_mul_bound a b c l ha hb hc hl
+  unfold Ruint.Gen.dw_split Ruint.Gen.dw_muladd2 Ruint.Gen.dw_low Ruint.Gen.dw_high
+  rs_norm
+  generalize a * b = p at *
+  unfold W at *
+  refine Prod.ext ?_ ?_ <;> simp only <;> omega
+
+theorem carry_lt (t : ℕ) (h : t < W * W) : t / W < W := (Nat.div_lt_iff_lt_mul W_pos).2 h
+
+theorem mul_step_eq (a n : ℕ) (l : List ℕ) (c i : ℕ) :
+    Ruint.Gen.mul_nx1_step1 a n (l, c, i) =
+      if i < n then
+        ((l.set i (Ruint.Gen.dw_split (Ruint.Gen.dw_muladd (l.getD i 0) a c)).1,
+          (Ruint.Gen.dw_split (Ruint.Gen.dw_muladd (l.getD i 0) a c)).2, Rs.wadd 64 i 1), true)
+      else ((l, c, i), false) := by
+  unfold Ruint.Gen.mul_nx1_step1
+  simp only [decide_eq_true_eq]
+
+theorem mul_loop_eq (a : ℕ) (ha : a < W) : ∀ (xs p : List ℕ) (c f n : ℕ),
+    p.length + xs.length = n → n < 2 ^ 64 → xs.length < f → AllLt xs → c < W →
+    Rs.loop (Ruint.Gen.mul_nx1_step1 a n) f (p ++ xs, c, p.length)
+      = (p ++ (mulNx1Go W xs a c).1, (mulNx1Go W xs a c).2, n) := by
+  intro xs
+  induction xs with
+  | nil =>
+    intro p c f n hn _ hf _ _
+    obtain ⟨f, rfl⟩ : ∃ g, f = g + 1 := ⟨f - 1, by simp at hf; omega⟩
+    simp only [List.length_nil, Nat.add_zero] at hn
+    rw [loop_succ, mul_step_eq]
+    simp [hn, mulNx1Go]
+  | cons x xs ih =>
+    intro p c f n hn hn64 hf hw hc
+    obtain ⟨f, rfl⟩ : ∃ g, f = g + 1 := ⟨f - 1, by simp at hf; omega⟩
+    simp only [List.length_cons] at hn hf
+    have hi : p.length < n := by omega
+    have hx : x < W := hw.head
+    have e := muladd_split x a c hx ha hc
+    have hc' : (x * a + c) / W < W := carry_lt _ (by simpa using word_mul_bound x a c 0 hx ha hc W_pos)
+    rw [loop_succ, mul_step_eq]
+    have g1 : (p ++ x :: xs).getD p.length 0 = x := by simp
+    have g3 : ∀ y, (p ++ x :: xs).set p.length y = (p ++ [y]) ++ xs := by intro y; simp
+    have g4 : ∀ y : ℕ, Rs.wadd 64 p.length 1 = (p ++ [y]).length := by
+      intro y; unfold Rs.wadd; rw [Nat.mod_eq_of_lt (by omega)]; simp
+    simp only [hi, if_true, g1, g3, e, g4 ((x * a + c) % W)]
+    have := ih (p ++ [(x * a + c) % W]) ((x * a + c) / W) f n (by simp; omega) hn64 (by omega) hw.tail hc'
+    simp only [List.append_assoc, List.singleton_append] at this ⊢
+    rw [this]
+    simp only [mulNx1Go]
+
+/-- **`mul_nx1` as generated from the source** equals the C15 model on word slices. -/
+theorem mul_nx1_eq (lhs : List ℕ) (a : ℕ) (hn : lhs.length < 2 ^ 64) (hw : AllLt lhs) (ha : a < W) :
+    Ruint.Gen.mul_nx1 (lhs.length + 1) lhs a = mulNx1 W lhs a := by
+  have hloop := mul_loop_eq a ha lhs [] 0 (lhs.length + 1) lhs.length (by simp) hn (by omega) hw W_pos
+  simp only [List.nil_append, List.length_nil] at hloop
+  unfold Ruint.Gen.mul_nx1 mulNx1
+  simp only [hloop]
+
+theorem addmul_step_eq (a : List ℕ) (b n : ℕ) (l : List ℕ) (c i : ℕ) :
+    Ruint.Gen.addmul_nx1_step1 a b n (l, c, i) =
+      if i < n then
+        ((l.set i (Ruint.Gen.dw_split (Ruint.Gen.dw_muladd2 (a.getD i 0) b c (l.getD i 0))).1,
+          (Ruint.Gen.dw_split (Ruint.Gen.dw_muladd2 (a.getD i 0) b c (l.getD i 0))).2, Rs.wadd 64 i 1), true)
+      else ((l, c, i), false) := by
+  unfold Ruint.Gen.addmul_nx1_step1
+  simp only [decide_eq_true_eq]
+
+theorem addmul_loop_eq (b : ℕ) (hb : b < W) : ∀ (ls as p aP : List ℕ) (c f n : ℕ),
+    ls.length = as.length → p.length = aP.length → p.length + as.length = n → n < 2 ^ 64 → as.length < f →
+    AllLt ls → AllLt as → c < W →
+    Rs.loop (Ruint.Gen.addmul_nx1_step1 (aP ++ as) b n) f (p ++ ls, c, p.length)
+      = (p ++ (addmulNx1Go W ls as b c).1, (addmulNx1Go W ls as b c).2, n) := by
+  intro ls
+  induction ls with
+  | nil =>
+    intro as p aP c f n hl hp hn _ hf _ _ _
+    cases as with
+    | cons _ _ => simp at hl
+    | nil =>
+      obtain ⟨f, rfl⟩ : ∃ g, f = g + 1 := ⟨f - 1, by simp at hf; omega⟩
+      simp only [List.length_nil, Nat.add_zero] at hn
+      rw [loop_succ, addmul_step_eq]
+      simp [hn, addmulNx1Go]
+  | cons l ls ih =>
+    intro as p aP c f n hl hp hn hn64 hf hwl hwa hc
+    cases as with
+    | nil => simp at hl
+    | cons a as =>
+      obtain ⟨f, rfl⟩ : ∃ g, f = g + 1 := ⟨f - 1, by simp at hf; omega⟩
+      simp only [List.length_cons] at hl hn hf
+      have hi : p.length < n := by omega
+      have hlw : l < W := hwl.head
+      have haw : a < W := hwa.head
+      have e := muladd2_split a b c l haw hb hc hlw
+      have hc' : (a * b + c + l) / W < W := carry_lt _ (word_mul_bound a b c l haw hb hc hlw)
+      rw [loop_succ, addmul_step_eq]
+      have g1 : (p ++ l :: ls).getD p.length 0 = l := by simp
+      have g2 : (aP ++ a :: as).getD p.length 0 = a := by rw [hp]; simp
+      have g3 : ∀ y, (p ++ l :: ls).set p.length y = (p ++ [y]) ++ ls := by intro y; simp
+      have g4 : ∀ y : ℕ, Rs.wadd 64 p.length 1 = (p ++ [y]).length := by
+        intro y; unfold Rs.wadd; rw [Nat.mod_eq_of_lt (by omega)]; simp
+      simp only [hi, if_true, g1, g2, g3, e, g4 ((a * b + c + l) % W)]
+      have := ih as (p ++ [(a * b + c + l) % W]) (aP ++ [a]) ((a * b + c + l) / W) f n (by omega) (by simp [hp])
+        (by simp; omega) hn64 (by omega) hwl.tail hwa.tail hc'
+      simp only [List.append_assoc, List.singleton_append] at this ⊢
+      rw [this]
+      simp only [addmulNx1Go]
+
+/-- **`addmul_nx1` as generated from the source** equals the C15 model on its `assume!`d domain `|lhs| = |a|`. -/
+theorem addmul_nx1_eq (lhs a : List ℕ) (b : ℕ) (hl : lhs.length = a.length) (hn : a.length < 2 ^ 64)
+    (hwl : AllLt lhs) (hwa : AllLt a) (hb : b < W) :
+    Ruint.Gen.addmul_nx1 (a.length + 1) lhs a b = addmulNx1 W lhs a b := by
+  have hloop := addmul_loop_eq b hb lhs a [] [] 0 (a.length + 1) a.length hl rfl (by simp) hn (by omega) hwl hwa W_pos
+  simp only [List.nil_append, List.length_nil] at hloop
+  unfold Ruint.Gen.addmul_nx1 addmulNx1
+  simp only [hloop]
+
+theorem submul_step_eq (a : List ℕ) (b n : ℕ) (l : List ℕ) (carry borrow i : ℕ) :
+    Ruint.Gen.submul_nx1_step1 a b n (carry, l, borrow, i) =
+      if i < n then
+        (((Ruint.Gen.dw_split (Ruint.Gen.dw_muladd (a.getD i 0) b carry)).2,
+          l.set i (Ruint.Gen.sbb (l.getD i 0) (Ruint.Gen.dw_split (Ruint.Gen.dw_muladd (a.getD i 0) b carry)).1 borrow).1,
+          (Ruint.Gen.sbb (l.getD i 0) (Ruint.Gen.dw_split (Ruint.Gen.dw_muladd (a.getD i 0) b carry)).1 borrow).2,
+          Rs.wadd 64 i 1), true)
+      else ((carry, l, borrow, i), false) := by
+  unfold Ruint.Gen.submul_nx1_step1
+  simp only [decide_eq_true_eq]
+
+/-- the `submul_nx1` loop with its two running words kept apart (the model adds them at the end) -/
+def submulGo2 (B : ℕ) : List ℕ → List ℕ → ℕ → ℕ → ℕ → List ℕ × ℕ × ℕ
+  | l :: ls, a :: as, b, carry, borrow =>
+      let p := a * b + carry
+      let s := sbb B l (p % B) borrow
+      let r := submulGo2 B ls as b (p / B) s.2
+      (s.1 :: r.1, r.2)
+  | ls, _, _, carry, borrow => (ls, carry, borrow)
+
+theorem submulGo2_model (B : ℕ) (ls as : List ℕ) (b carry borrow : ℕ) :
+    submulNx1Go B ls as b carry borrow
+      = ((submulGo2 B ls as b carry borrow).1,
+          (submulGo2 B ls as b carry borrow).2.2 + (submulGo2 B ls as b carry borrow).2.1) := by
+  induction ls generalizing as carry borrow with
+  | nil => cases as <;> simp [submulNx1Go, submulGo2]
+  | cons l ls ih =>
+    cases as with
+    | nil => simp [submulNx1Go, submulGo2]
+    | cons a as => simp only [submulNx1Go, submulGo2, ih]
+
+theorem submul_loop_eq (b : ℕ) (hb : b < W) : ∀ (ls as p aP : List ℕ) (carry borrow f n : ℕ),
+    ls.length = as.length → p.length = aP.length → p.length + as.length = n → n < 2 ^ 64 → as.length < f →
+    AllLt ls → AllLt as → carry < W → borrow < W →
+    Rs.loop (Ruint.Gen.submul_nx1_step1 (aP ++ as) b n) f (carry, p ++ ls, borrow, p.length)
+      = ((submulGo2 W ls as b carry borrow).2.1, p ++ (submulGo2 W ls as b carry borrow).1,
+          (submulGo2 W ls as b carry borrow).2.2, n) := by
+  intro ls
+  induction ls with
+  | nil =>
+    intro as p aP carry borrow f n hl hp hn _ hf _ _ _ _
+    cases as with
+    | cons _ _ => simp at hl
+    | nil =>
+      obtain ⟨f, rfl⟩ : ∃ g, f = g + 1 := ⟨f - 1, by simp at hf; omega⟩
+      simp only [List.length_nil, Nat.add_zero] at hn
+      rw [loop_succ, submul_step_eq]
+      simp [hn, submulGo2]
+  | cons l ls ih =>
+    intro as p aP carry borrow f n hl hp hn hn64 hf hwl hwa hc hbo
+    cases as with
+    | nil => simp at hl
+    | cons a as =>
+      obtain ⟨f, rfl⟩ : ∃ g, f = g + 1 := ⟨f - 1, by simp at hf; omega⟩
+      simp only [List.length_cons] at hl hn hf
+      have hi : p.length < n := by omega
+      have hlw : l < W := hwl.head
+      have haw : a < W := hwa.head
+      have e := muladd_split a b carry haw hb hc
+      have hpw : (a * b + carry) % W < W := Nat.mod_lt _ W_pos
+      have hc' : (a * b + carry) / W < W := carry_lt _ (by simpa using word_mul_bound a b carry 0 haw hb hc W_pos)
+      have es := sbb_eq l ((a * b + carry) % W) borrow hlw hpw hbo
+      obtain ⟨_, _, hbo'⟩ := GenCore.sbb_spec l ((a * b + carry) % W) borrow hlw hpw hbo
+      rw [es] at hbo'
+      rw [loop_succ, submul_step_eq]
+      have g1 : (p ++ l :: ls).getD p.length 0 = l := by simp
+      have g2 : (aP ++ a :: as).getD p.length 0 = a := by rw [hp]; simp
+      have g3 : ∀ y, (p ++ l :: ls).set p.length y = (p ++ [y]) ++ ls := by intro y; simp
+      have g4 : ∀ y : ℕ, Rs.wadd 64 p.length 1 = (p ++ [y]).length := by
+        intro y; unfold Rs.wadd; rw [Nat.mod_eq_of_lt (by omega)]; simp
+      simp only [hi, if_true, g1, g2, g3, e, es, g4 (sbb W l ((a * b + carry) % W) borrow).1]
+      have := ih as (p ++ [(sbb W l ((a * b + carry) % W) borrow).1]) (aP ++ [a]) ((a * b + carry) / W)
+        (sbb W l ((a * b + carry) % W) borrow).2 f n (by omega) (by simp [hp]) (by simp; omega) hn64 (by omega)
+        hwl.tail hwa.tail hc' hbo'
+      simp only [List.append_assoc, List.singleton_append] at this ⊢
+      rw [this, submulGo2]
+
+/-- `submul_nx1` as generated from the source, against the model: same limbs; the returned word is the generated
+    `borrow.wrapping… + carry` (u64 `+`) where the model has the plain sum — equal because the sum is a word
+    (`Props/C15: submul_nx1_spec`, used there to conclude `gen_submul_nx1_eq`). -/
+theorem submul_nx1_eq' (lhs a : List ℕ) (b : ℕ) (hl : lhs.length = a.length) (hn : a.length < 2 ^ 64)
+    (hwl : AllLt lhs) (hwa : AllLt a) (hb : b < W) :
+    Ruint.Gen.submul_nx1 (a.length + 1) lhs a b
+      = ((submulNx1 W lhs a b).1, (submulNx1 W lhs a b).2 % 2 ^ 64) := by
+  have hloop := submul_loop_eq b hb lhs a [] [] 0 0 (a.length + 1) a.length hl rfl (by simp) hn (by omega) hwl hwa
+    W_pos W_pos
+  simp only [List.nil_append, List.length_nil] at hloop
+  unfold Ruint.Gen.submul_nx1 submulNx1
+  simp only [hloop, submulGo2_model W]
+  rfl
+
+/-! ### `add_nx1` (two early exits) -/
+
+theorem add_split (l a : ℕ) (hl : l < W) (ha : a < W) :
+    Ruint.Gen.dw_split (Ruint.Gen.dw_add l a) = ((l + a) % W, (l + a) / W) := by
+  unfold Ruint.Gen.dw_split Ruint.Gen.dw_add Ruint.Gen.dw_low Ruint.Gen.dw_high
+  rs_norm
+  unfold W at *
+  refine Prod.ext ?_ ?_ <;> simp only <;> omega
+
+theorem addNx1_zero (B : ℕ) (ls : List ℕ) : addNx1 B ls 0 = (ls, 0) := by
+  cases ls <;> simp [addNx1]
+
+theorem addnx1_step_eq (n : ℕ) (l : List ℕ) (a i : ℕ) :
+    Ruint.Gen.add_nx1_step1 n ((l, a, i), none) =
+      if i < n then
+        (if (Ruint.Gen.dw_split (Ruint.Gen.dw_add (l.getD i 0) a)).2 = 0 then
+          (((l.set i (Ruint.Gen.dw_split (Ruint.Gen.dw_add (l.getD i 0) a)).1,
+              (Ruint.Gen.dw_split (Ruint.Gen.dw_add (l.getD i 0) a)).2, i),
+            some (l.set i (Ruint.Gen.dw_split (Ruint.Gen.dw_add (l.getD i 0) a)).1, 0)), false)
+        else
+          (((l.set i (Ruint.Gen.dw_split (Ruint.Gen.dw_add (l.getD i 0) a)).1,
+              (Ruint.Gen.dw_split (Ruint.Gen.dw_add (l.getD i 0) a)).2, Rs.wadd 64 i 1), none), true))
+      else (((l, a, i), none), false) := by
+  unfold Ruint.Gen.add_nx1_step1
+  simp only [decide_eq_true_eq, beq_iff_eq]
+
+theorem addnx1_loop_eq : ∀ (ls p : List ℕ) (a f n : ℕ),
+    p.length + ls.length = n → n < 2 ^ 64 → ls.length < f → AllLt ls → a < W → a ≠ 0 →
+    ((Rs.loop (Ruint.Gen.add_nx1_step1 n) f ((p ++ ls, a, p.length), none)).2).getD
+        ((Rs.loop (Ruint.Gen.add_nx1_step1 n) f ((p ++ ls, a, p.length), none)).1.1,
+          (Rs.loop (Ruint.Gen.add_nx1_step1 n) f ((p ++ ls, a, p.length), none)).1.2.1)
+      = (p ++ (addNx1 W ls a).1, (addNx1 W ls a).2) := by
+  intro ls
+  induction ls with
+  | nil =>
+    intro p a f n hn _ hf _ _ _
+    obtain ⟨f, rfl⟩ : ∃ g, f = g + 1 := ⟨f - 1, by simp at hf; omega⟩
+    simp only [List.length_nil, Nat.add_zero] at hn
+    rw [loop_succ, addnx1_step_eq]
+    simp [hn, addNx1]
+  | cons l ls ih =>
+    intro p a f n hn hn64 hf hw ha ha0
+    obtain ⟨f, rfl⟩ : ∃ g, f = g + 1 := ⟨f - 1, by simp at hf; omega⟩
+    simp only [List.length_cons] at hn hf
+    have hi : p.length < n := by omega
+    have hlw : l < W := hw.head
+    have e := add_split l a hlw ha
+    have hc' : (l + a) / W < W := by
+      have : (l + a) / W ≤ 1 := by
+        have : l + a < 2 * W := by omega
+        exact Nat.lt_succ_iff.mp ((Nat.div_lt_iff_lt_mul W_pos).2 (by omega))
+      have := W_pos; unfold W at *; omega
+    rw [loop_succ, addnx1_step_eq]
+    have g1 : (p ++ l :: ls).getD p.length 0 = l := by simp
+    have g3 : ∀ y, (p ++ l :: ls).set p.length y = (p ++ [y]) ++ ls := by intro y; simp
+    have g4 : ∀ y : ℕ, Rs.wadd 64 p.length 1 = (p ++ [y]).length := by
+      intro y; unfold Rs.wadd; rw [Nat.mod_eq_of_lt (by omega)]; simp
+    simp only [hi, if_true, g1, g3, e]
+    rw [addNx1, if_neg ha0]
+    by_cases h0 : (l + a) / W = 0
+    · simp only [h0, if_true, Bool.false_eq_true, if_false, Option.getD_some, addNx1_zero]
+      simp
+    · simp only [h0, if_false, if_true, g4 ((l + a) % W)]
+      have := ih (p ++ [(l + a) % W]) ((l + a) / W) f n (by simp; omega) hn64 (by omega) hw.tail hc' h0
+      simp only [List.append_assoc, List.singleton_append] at this ⊢
+      rw [this]
+
+/-- **`add_nx1` as generated from the source** (both early exits) equals the C15 model on word slices. -/
+theorem add_nx1_eq (lhs : List ℕ) (a : ℕ) (hn : lhs.length < 2 ^ 64) (hw : AllLt lhs) (ha : a < W) :
+    Ruint.Gen.add_nx1 (lhs.length + 1) lhs a = addNx1 W lhs a := by
+  unfold Ruint.Gen.add_nx1
+  by_cases h0 : a = 0
+  · subst h0; simp [addNx1_zero]
+  · have hb : (a == 0) = false := by simp [h0]
+    simp only [hb, Bool.false_eq_true, if_false]
+    have := addnx1_loop_eq lhs [] a (lhs.length + 1) lhs.length (by simp) hn (by omega) hw ha h0
+    simp only [List.nil_append, List.length_nil] at this
+    exact this
+
+/-! ### `shift_left_small`, `shift_right_small` -/
+open Ruint.ShiftK
+
+theorem wsub64 (amount : ℕ) (h : amount ≤ 64) : Rs.wsub 64 64 amount = 64 - amount := by
+  unfold Rs.wsub
+  have : 64 + 2 ^ 64 - amount = (64 - amount) + 2 ^ 64 := by omega
+  rw [this, Nat.add_mod_right, Nat.mod_eq_of_lt (by omega)]
+
+theorem shl_step_eq (amount n : ℕ) (l : List ℕ) (ov i : ℕ) :
+    Ruint.Gen.shift_left_small_step1 amount n (ov, l, i) =
+      if i < n then
+        (((l.getD i 0) / 2 ^ (Rs.wsub 64 64 amount), l.set i ((Rs.wshl 64 (l.getD i 0) amount) ||| ov), Rs.wadd 64 i 1), true)
+      else ((ov, l, i), false) := by
+  unfold Ruint.Gen.shift_left_small_step1
+  simp only [decide_eq_true_eq]
+
+theorem shl_loop_eq (amount : ℕ) (ham : amount ≤ 64) : ∀ (xs p : List ℕ) (ov f n : ℕ),
+    p.length + xs.length = n → n < 2 ^ 64 → xs.length < f →
+    Rs.loop (Ruint.Gen.shift_left_small_step1 amount n) f (ov, p ++ xs, p.length)
+      = ((shlLoop amount xs ov).2, p ++ (shlLoop amount xs ov).1, n) := by
+  intro xs
+  induction xs with
+  | nil =>
+    intro p ov f n hn _ hf
+    obtain ⟨f, rfl⟩ : ∃ g, f = g + 1 := ⟨f - 1, by simp at hf; omega⟩
+    simp only [List.length_nil, Nat.add_zero] at hn
+    rw [loop_succ, shl_step_eq]
+    simp [hn, shlLoop]
+  | cons x xs ih =>
+    intro p ov f n hn hn64 hf
+    obtain ⟨f, rfl⟩ : ∃ g, f = g + 1 := ⟨f - 1, by simp at hf; omega⟩
+    simp only [List.length_cons] at hn hf
+    have hi : p.length < n := by omega
+    rw [loop_succ, shl_step_eq]
+    have g1 : (p ++ x :: xs).getD p.length 0 = x := by simp
+    have g3 : ∀ y, (p ++ x :: xs).set p.length y = (p ++ [y]) ++ xs := by intro y; simp
+    have g4 : ∀ y : ℕ, Rs.wadd 64 p.length 1 = (p ++ [y]).length := by
+      intro y; unfold Rs.wadd; rw [Nat.mod_eq_of_lt (by omega)]; simp
+    simp only [hi, if_true, g1, g3, wsub64 amount ham, g4 ((Rs.wshl 64 x amount) ||| ov)]
+    have := ih (p ++ [(Rs.wshl 64 x amount) ||| ov]) (x / 2 ^ (64 - amount)) f n (by simp; omega) hn64 (by omega)
+    simp only [List.append_assoc, List.singleton_append] at this ⊢
+    rw [this, shlLoop]
+    rfl
+
+/-- **`shift_left_small` as generated from the source** equals the C15 model for every amount ≤ 64. -/
+theorem shift_left_small_eq (limbs : List ℕ) (amount : ℕ) (ham : amount ≤ 64) (hn : limbs.length < 2 ^ 64) :
+    Ruint.Gen.shift_left_small (limbs.length + 1) limbs amount = shlSmall limbs amount := by
+  unfold Ruint.Gen.shift_left_small shlSmall
+  by_cases h0 : amount = 0
+  · subst h0; simp
+  · have hb : (amount == 0) = false := by simp [h0]
+    simp only [hb, Bool.false_eq_true, if_false, h0]
+    have := shl_loop_eq amount ham limbs [] 0 (limbs.length + 1) limbs.length (by simp) hn (by omega)
+    simp only [List.nil_append, List.length_nil] at this
+    rw [this]
+
+theorem shr_step_eq (amount : ℕ) (l : List ℕ) (ov i : ℕ) :
+    Ruint.Gen.shift_right_small_step1 amount 0 (i, ov, l) =
+      if i > 0 then
+        ((Rs.wsub 64 i 1, Rs.wshl 64 (l.getD (Rs.wsub 64 i 1) 0) (Rs.wsub 64 64 amount),
+          l.set (Rs.wsub 64 i 1) (((l.getD (Rs.wsub 64 i 1) 0) / 2 ^ amount) ||| ov)), true)
+      else ((i, ov, l), false) := by
+  unfold Ruint.Gen.shift_right_small_step1
+  simp only [decide_eq_true_eq]
+
+theorem wsub_pred (i : ℕ) (h0 : 0 < i) (h : i < 2 ^ 64) : Rs.wsub 64 i 1 = i - 1 := by
+  unfold Rs.wsub
+  have : i + 2 ^ 64 - 1 = (i - 1) + 2 ^ 64 := by omega
+  rw [this, Nat.add_mod_right, Nat.mod_eq_of_lt (by omega)]
+
+theorem shr_loop_eq (amount : ℕ) (ham : amount ≤ 64) : ∀ (p q : List ℕ) (f : ℕ),
+    p.length < 2 ^ 64 → p.length < f →
+    Rs.loop (Ruint.Gen.shift_right_small_step1 amount 0) f
+        (p.length, (shrLoop amount q).2, p ++ (shrLoop amount q).1)
+      = (0, (shrLoop amount (p ++ q)).2, (shrLoop amount (p ++ q)).1) := by
+  intro p
+  induction p using List.reverseRecOn with
+  | nil =>
+    intro q f _ hf
+    obtain ⟨f, rfl⟩ : ∃ g, f = g + 1 := ⟨f - 1, by simp at hf; omega⟩
+    rw [loop_succ, shr_step_eq]
+    simp
+  | append_singleton p x ih =>
+    intro q f hn hf
+    obtain ⟨f, rfl⟩ : ∃ g, f = g + 1 := ⟨f - 1, by simp at hf; omega⟩
+    simp only [List.length_append, List.length_singleton] at hn hf
+    rw [loop_succ, shr_step_eq]
+    have hpos : (p ++ [x]).length > 0 := by simp
+    have hpred : Rs.wsub 64 (p ++ [x]).length 1 = p.length := by
+      rw [wsub_pred _ hpos (by simp; omega)]; simp
+    have g1 : (p ++ [x] ++ (shrLoop amount q).1).getD p.length 0 = x := by simp
+    have g3 : ∀ y, (p ++ [x] ++ (shrLoop amount q).1).set p.length y = p ++ (y :: (shrLoop amount q).1) := by
+      intro y; simp
+    simp only [hpos, if_true, hpred, g1, g3, wsub64 amount ham]
+    have e : shrLoop amount (x :: q)
+        = (((x / 2 ^ amount) ||| (shrLoop amount q).2) :: (shrLoop amount q).1,
+           Rs.wshl 64 x (64 - amount)) := by rw [shrLoop]; rfl
+    have := ih (x :: q) f (by omega) (by omega)
+    rw [e] at this
+    simp only [List.append_assoc, List.singleton_append]
+    exact this
+
+/-- **`shift_right_small` as generated from the source** equals the C15 model for every amount ≤ 64. -/
+theorem shift_right_small_eq (limbs : List ℕ) (amount : ℕ) (ham : amount ≤ 64) (hn : limbs.length < 2 ^ 64) :
+    Ruint.Gen.shift_right_small (limbs.length + 1) limbs amount = shrSmall limbs amount := by
+  unfold Ruint.Gen.shift_right_small shrSmall
+  by_cases h0 : amount = 0
+  · subst h0; simp
+  · have hb : (amount == 0) = false := by simp [h0]
+    simp only [hb, Bool.false_eq_true, if_false, h0]
+    have := shr_loop_eq amount ham limbs [] (limbs.length + 1) hn (by omega)
+    simp only [shrLoop, List.append_nil] at this
+    rw [this]
 
 end Ruint.GenKernels
